@@ -28,7 +28,9 @@ var pureStdlib = map[string]bool{
 	"math.Abs": true, "math.Floor": true, "math.Ceil": true, "math.Round": true, "math.Trunc": true, "math.IsNaN": true, "math.IsInf": true,
 	"math.Float64bits": true, "math.Float64frombits": true, "math.Float32bits": true, "math.Float32frombits": true, "math.Pow": true, "math.Mod": true,
 	"math.RoundToEven": true, "math.Inf": true, "math.NaN": true, "math.Signbit": true, "math.Sqrt": true, "math.Log10": true,
-	"runtime/debug.Stack": true,
+	"runtime/debug.Stack": true, "runtime/trace.StartRegion": true, "(*runtime/trace.Region).End": true,
+	"unicode.IsDigit": true, "unicode.IsLetter": true, "unicode.IsSpace": true, "unicode.IsUpper": true, "unicode.IsLower": true,
+	"unicode.ToLower": true, "unicode.ToUpper": true, "unicode.IsPunct": true, "unicode.IsNumber": true, "unicode.IsControl": true, "unicode.IsPrint": true,
 	"encoding/binary.littleEndian.Uint32": true, "encoding/binary.littleEndian.Uint64": true,
 	"crypto/sha1.Sum": true,
 	"time.Now": true,
@@ -291,6 +293,7 @@ func (vc *VC) call(in ssa.Instruction, c *ssa.CallCommon, st *State, reach Term)
 	}
 	vc.assume("call without contract: result unconstrained, reachable memory havocked, assumed not to panic: " + name)
 	preCall := st.clone()
+	vc.frameStrict(c, name, reach, pos)
 	vc.havocForCall(c, st)
 	vc.keepUnreachable(preCall, st, reach)
 	res := vc.freshTyped(st, "call", rt, reach)
@@ -303,6 +306,50 @@ func markerOrdinal2(f *ssa.Function) (int, bool) {
 		return 0, true
 	}
 	return 0, false
+}
+
+// frameStrict: inside a function that declares a frame, a call without contract that can reach
+// memory of any type (interface, function or channel typed operands) may write heaps this
+// function never names, which the per-heap frame obligations cannot see: it fails the frame.
+func (vc *VC) frameStrict(c *ssa.CallCommon, name string, reach Term, pos token.Pos) {
+	if vc.fi == nil || len(vc.fi.fc.Modifies) == 0 || vc.fi.fc.Trusted {
+		return
+	}
+	all := c.IsInvoke() || c.StaticCallee() == nil
+	for _, a := range c.Args {
+		if typeReachesAll(a.Type(), map[types.Type]bool{}) {
+			all = true
+		}
+	}
+	if all {
+		vc.oblige("frame", "call:"+name, reach, "false", pos, "modifies: call without contract or frame that can reach memory of any type")
+	}
+}
+
+func typeReachesAll(t types.Type, seen map[types.Type]bool) bool {
+	if seen[t] {
+		return false
+	}
+	seen[t] = true
+	switch u := t.Underlying().(type) {
+	case *types.Pointer:
+		return typeReachesAll(u.Elem(), seen)
+	case *types.Slice:
+		return typeReachesAll(u.Elem(), seen)
+	case *types.Array:
+		return typeReachesAll(u.Elem(), seen)
+	case *types.Struct:
+		for i := 0; i < u.NumFields(); i++ {
+			if typeReachesAll(u.Field(i).Type(), seen) {
+				return true
+			}
+		}
+	case *types.Map:
+		return typeReachesAll(u.Key(), seen) || typeReachesAll(u.Elem(), seen)
+	case *types.Interface, *types.Signature, *types.Chan:
+		return true
+	}
+	return false
 }
 
 // havocForCall: havoc heaps reachable by type from the arguments (all heaps if an
@@ -397,6 +444,17 @@ func (vc *VC) contractCall(fi *FuncInfo, args []Val, st *State, reach Term, rt t
 		var ts []types.Type
 		for _, a := range args {
 			ts = append(ts, a.typ)
+		}
+		if vc.fi != nil && len(vc.fi.fc.Modifies) > 0 && !vc.fi.fc.Trusted {
+			all := fi.fc.IsIface
+			for _, t := range ts {
+				if typeReachesAll(t, map[types.Type]bool{}) {
+					all = true
+				}
+			}
+			if all {
+				vc.oblige("frame", "call:"+fi.fc.Name, reach, "false", pos, "modifies: call of a function without frame that can reach memory of any type")
+			}
 		}
 		vc.havocByTypes(ts, fi.fc.IsIface, st)
 	}
